@@ -76,6 +76,9 @@ func Thorough() bool          { return cex.Thorough }
 func SymbolicFormat(on bool)  {}
 func SetStepBudget(n int)     {}
 func DropSpawned()            {}
+func PanicSite() string       { return "" }
+func Goroutines()             {}
+func Quiesce()                { time.Sleep(30 * time.Millisecond) }
 func Spawned() int            { return 0 }
 func AllowUnbuffered(ch interface{}) {}
 func SetDialConn(conn interface{})   {}
